@@ -19,7 +19,7 @@ RULE = ('DEV under a virtual clock: real client vs scripted server, (period, lif
         'one delayed or missing acknowledgement; states = distinct (config, reception-gap profile)')
 EXPLANATION = 'stateless deviation-bounded exploration of acknowledgement patterns; all timers run on the virtual clock'
 ASSUMPTIONS = ['exact boundary instants (silence == L, == 2L within 1e-6 s) are accepted either way']
-BUDGET_S = {'quick': 240, 'thorough': 2400}
+BUDGET_S = {'quick': 400, 'thorough': 2400}
 
 CONFIGS = ((1.0, 3.0), (2.0, 2.0), (0.5, 1.2), (3.0, 1.0))
 DELAYS = (0.4, 1.1, 1.5, 2.5)
@@ -274,6 +274,66 @@ def echo_sequences(part, tier):
                             s.teardown()
 
 
+
+# ---- keepalives of a connection obtained by reconnect() -------------------------------------------------------------------
+def reconnect_scenario(params=None):
+    """C17's reconnect world (client + provider of three transports, each with its own real server; every server may fall
+    silent at any choice point; the application reconnects from on_keepalive_timeout) judged by this property's clauses on the
+    later connections: periodic emission restarts with the new connection and a silent later server is detected as well."""
+    from mc.props import c17
+
+    class ReconnectKeepalive(c17.Reconnect):
+        def check(self, w):
+            out = []
+            log = w.log
+            conns = w.objs['conns']
+            times, t = [], 0.0
+            for ev in log:
+                if ev[0] == 't':
+                    t = ev[1]
+                times.append(t)
+            end = w.loop.time()
+            if w.loop.next_timer() is None:
+                # nothing is scheduled any more: the world stays as it is until the horizon (a client without timers never sends
+                # another KEEPALIVE and never reports a timeout)
+                end = max(end, self.world_kw['horizon'])
+            timeouts = [times[i] for i, ev in enumerate(log) if ev[0] == 'api' and len(ev) > 3 and ev[3] == 'on_keepalive_timeout']
+            for k in range(1, len(conns)):
+                c = conns[k]
+                # the connection exists from the moment the client took the transport from its provider (in this world the
+                # transport connects at once and only ever falls silent, so the client can always write)
+                setup = next((i for i, ev in enumerate(log) if ev[0] == 'provide' and ev[1] == c.cname), None)
+                if setup is None:
+                    continue
+                ts = times[setup]
+                # the connection's life ends with the next reconnect request / timeout report / loss, or with the run
+                stop = next((times[i] for i, ev in enumerate(log) if i > setup and (ev[0] == 'reconnect-requested' or (ev[0] == 'api' and len(ev) > 3 and ev[3] == 'on_keepalive_timeout')
+                                                                                or (ev[0] in ('eof', 'rst', 'close') and ev[1] in (c.cname, c.sname)))), end)
+                sends = [times[i] for i, ev in enumerate(log) if ev[0] == 'tx' and ev[1] == c.cname and ev[2].type == R.KEEPALIVE and (ev[2].flags & R.F_RESPOND)]
+                exp = []
+                j = 1
+                while ts + j * c17.PERIOD <= stop - EPS:
+                    exp.append(ts + j * c17.PERIOD)
+                    j += 1
+                got = [x for x in sends if x <= stop - EPS and x > ts + EPS]
+                if len(got) < len(exp) or any(abs(a - b_) > 1e-6 for a, b_ in zip(got, exp)):
+                    out.append(('C15.periodic-emission', 'C15.periodic-emission | after-reconnect | connection=%d' % k,
+                                'connection %d (taken from the provider at t=%.3f, in use until t=%.3f): respond-flagged KEEPALIVEs at %s, expected at %s' % (
+                                    k, ts, stop, [round(x, 3) for x in got], [round(x, 3) for x in exp])))
+                mute = next((times[i] for i, ev in enumerate(log) if i > setup and ev[0] == 'mute' and ev[1] in (c.cname, c.sname)), None)
+                if mute is not None and end > mute + 2 * c17.LIFE + EPS:
+                    lost = any(ev[0] in ('eof', 'rst', 'close') and ev[1] in (c.cname, c.sname) for ev in log) or any(
+                        ev[0] == 'reconnect-requested' and ts < times[i] <= mute for i, ev in enumerate(log))
+                    if not lost and not any(ts < T <= mute + 2 * c17.LIFE + EPS for T in timeouts):
+                        out.append(('C15.timeout-detected', 'C15.timeout-detected | after-reconnect | connection=%d' % k,
+                                    'server %d fell silent at t=%.3f (connection set up at %.3f); no on_keepalive_timeout by t=%.3f; invocations %s' % (
+                                        k, mute, ts, mute + 2 * c17.LIFE, [round(x, 3) for x in timeouts])))
+            return out
+
+    p = params or {'cause': 'mute', 'trigger': 'on_timeout', 'rounds': 2, 'alts': [], 'modes': ['Q']}
+    return ReconnectKeepalive(p['cause'], p['trigger'], p['rounds'], tuple(p['alts']), tuple(p['modes']))
+
+
 def make_units(tier):
     units = [{'kind': 'echo'}, {'kind': 'echo-seq', 'tier': tier}]
     bound = 3 if tier == 'quick' else 4
@@ -285,6 +345,8 @@ def make_units(tier):
         # the server additionally sends its own respond-flagged KEEPALIVE every 0.7 lifetimes
         for k in range(4):
             units.append({'kind': 'pattern', 'period': p, 'life': L, 'flavour': 'tcp', 'bound': bound - 1, 'shard': [k, 4], 'beat': 0.7})
+    for k in range(16):
+        units.append({'kind': 'reconnect', 'bound': 2, 'shard': [k, 16]})
     return units
 
 
@@ -293,6 +355,9 @@ def run_unit(unit, part):
         echo_sequences(part, unit['tier'])
         part.sample({'kind': 'echo-sequences', 'max_len': 3 if unit['tier'] == 'quick' else 4})
         return
+    if unit['kind'] == 'reconnect':
+        from mc.explore import dev_explore
+        return dev_explore(reconnect_scenario(), unit['bound'], part, shard=tuple(unit['shard']), det_every=100)
     if unit['kind'] == 'echo':
         echo_cases(part)
         part.sample({'kind': 'echo', 'respond': [False, True], 'data_lengths': [0, 1, 300], 'positions': [0, 2 ** 63 - 1]})
@@ -302,6 +367,9 @@ def run_unit(unit, part):
 
 def replay(rec):
     w = rec['witness']
+    if w.get('scenario') == 'reconnect':
+        from mc.explore import replay_witness
+        return bool(replay_witness(reconnect_scenario(w['params']), w))
     if w['kind'] == 'echo':
         from mc.runner import Partial
         p = Partial()
